@@ -10,7 +10,11 @@ import DosModel.Model.HandlersInv
 namespace Dos.Handlers
 open Dos
 
-def showOuts (os : List Out) : String := String.intercalate ";" (os.map Out.show)
+/-- outcomes of a sequence; when one of them is a panic the process is gone and the whole line is that panic -/
+def showOuts (os : List Out) : String :=
+  match os.find? Out.isPanic with
+  | some p => p.show
+  | none => String.intercalate ";" (os.map Out.show)
 
 def parts (sep : String) (s : String) : List String := if s == "-" then [] else s.splitOn sep
 
@@ -20,7 +24,12 @@ def natAfter (pre : String) (s : String) : Option Nat :=
   if s.startsWith pre then (s.drop pre.length).toNat? else none
 
 def parseItem (s : String) : Option Item :=
-  if s == "r" then some .resp
+  if s.startsWith "r" then
+    match (s.drop 1).toString.splitOn "." with
+    | [d, r] => do
+      let d ← d.toNat?
+      if r == "n" then pure (.resp d none) else pure (.resp d (some (← r.toNat?)))
+    | _ => none
   else match natAfter "p" s with
     | some i => some (.pk i)
     | none => (natAfter "d" s).map .deal
@@ -140,7 +149,7 @@ def step (cfg : Cfg) (line : String) : String :=
   | ["inv"] => if invDiff.isEmpty then "inventory ok" else "inventory " ++ String.intercalate " " invDiff
   | ["sess", evs] =>
     match (parts ";" evs).mapM parseSessEv with
-    | some es => showOuts (sessRun {} es).2
+    | some es => showOuts (sessRun cfg {} es).2
     | none => bad
   | ["xpub", n, self, bs] =>
     match n.toNat?, parseElem self, (parts "|" bs).mapM (fun b => (parts "," b).mapM parseElem) with
@@ -152,7 +161,7 @@ def step (cfg : Cfg) (line : String) : String :=
     | _, _ => bad
   | ["dkgs", n, me, ops] =>
     match n.toNat?, me.toNat?, (parts ";" ops).mapM parseDkgOp with
-    | some n, some me, some os => showOuts (dkgRun cfg { n := n, me := me } os).2
+    | some n, some me, some os => showOuts (dkgRun cfg (DkgSt.init n me) os).2
     | _, _, _ => bad
   | ["stage", which, hv, el] =>
     match bool01 hv, parseElem el with
@@ -174,7 +183,7 @@ def step (cfg : Cfg) (line : String) : String :=
     match (parts ";" evs).mapM parseQEv with
     | some es => showOuts (qRun cfg {} es).2
     | none => bad
-  | ["rsign", t, n, valid, signs] =>
+  | ["rsign", t, n, _seed, valid, signs] =>
     match t.toNat?, n.toNat?, (parts "," valid).mapM parsePair, (parts ";" signs).mapM parseSign with
     | some t, some n, some vs, some ss =>
       showOuts (rsRun cfg (fun c s => vs.any (fun p => p.1 == c && p.2 == s)) t n {} ss).2
